@@ -2,7 +2,8 @@
 """Run each seeded mutation against the check of its property (and extra checks given in EXTRA); record in meta.json."""
 import json, os, subprocess, sys, concurrent.futures
 V = os.path.dirname(os.path.dirname(os.path.abspath(__file__)))
-EXTRA = {"C01-d": ["C11", "C07"], "C05-d": ["C08", "C09"], "C10-d": ["C04"], "C15-d": ["C19"], "C11-d": ["C09", "C01"], "C12-d": ["C17"], "C07-d": ["C01"],
+EXTRA = {"C01-e": ["C02", "C14"], "C03-e": ["C01"], "C13-e": ["C03", "C01"], "C17-e": ["C01", "C02"], "C05-e": ["C09"], "C04-e": ["C10"], "C10-e": ["C04"],
+         "C01-d": ["C11", "C07"], "C05-d": ["C08", "C09"], "C10-d": ["C04"], "C15-d": ["C19"], "C11-d": ["C09", "C01"], "C12-d": ["C17"], "C07-d": ["C01"],
          "C02-d": ["C01", "C14"], "C14-d": ["C01", "C02"], "C06-d": ["C03"], "C13-d": ["C19"], "C19-d": ["C13", "C04"], "C03-d": ["C06"], "C04-d": ["C10"], "C17-d": ["C05"],
          "C02-c": ["C18"], "C17-c": ["C12"], "C14-c": ["C03"], "C19-c": ["C04"], "C02-b": ["C18"], "C18-a": ["C18"], "C14-a": ["C04"], "C14-b": ["C03", "C14"], "C17-a": ["C05"], "C12-a": ["C12"], "C01-b": ["C02"],
          "revert-2ae8c54": ["C04", "C13"], "revert-a78614b": ["C01", "C03"], "revert-fd379c2": ["C01", "C03"], "revert-10164bf": ["C09"], "revert-80819e0": ["C13"], "revert-8416c89": ["C13"], "revert-2e02a4b": ["C19"], "revert-97e517b": ["C19"],
